@@ -874,9 +874,15 @@ def s_sym_terms(draw, n, symmetry, groups, max_terms=4):
 def s_sector(draw, tier):
     symmetry = draw(st.sampled_from(["Z2", "U1", "U1U1", "U1U1"]))
     max_n = 5 if tier == "quick" else 7
-    space = draw(s_space(min_n=2 if symmetry == "U1U1" else 1, max_n=max_n,
+    space = draw(s_space(min_n=2, max_n=max_n,
                          species="maybe" if symmetry != "U1U1" else draw(st.sampled_from(["two", "two", None]))))
     n = space["n"]
+
+    def mid(m):
+        # fillings biased to the middle: proper sectors of dimension > 1 by construction
+        a, b = draw(st.integers(0, m)), draw(st.integers(0, m))
+        return a if abs(2 * a - m) <= abs(2 * b - m) else b
+
     case = {"space": space, "symmetry": symmetry, "hs": True, "where": draw(st.sampled_from(["hs", "call"])),
             "sym_given": draw(st.booleans()), "jw": draw(st.booleans()), "pauli": False,
             "how": draw(st.sampled_from(["ctor", "iadd"])), "toggle": False, "prebuild": 0,
@@ -886,7 +892,7 @@ def s_sector(draw, tier):
     if symmetry == "Z2":
         case["sector"] = draw(st.sampled_from(["even", "odd", 0, 1]))
     elif symmetry == "U1":
-        case["sector"] = draw(st.integers(0, n))
+        case["sector"] = mid(n)
     else:
         if space["species"] is None:
             na = draw(st.integers(1, n - 1))
@@ -895,7 +901,7 @@ def s_sector(draw, tier):
             form = draw(st.sampled_from(["dict", "tuple", "explicit"]))
         groups = charge_groups(space, symmetry, na)
         case["form"] = form
-        case["fill"] = [draw(st.integers(0, len(g))) for g in groups]
+        case["fill"] = [mid(len(g)) for g in groups]
         case["na"] = na
     case["terms"] = draw(s_sym_terms(n, symmetry, charge_groups(space, symmetry, na)))
     return case
